@@ -325,6 +325,58 @@ example :
     ∧ decode exO exX exA 200 (some ['E']) = .exc .unknownArg
     ∧ decode exO exX { exA with strict := false } 200 (some ['E']) = .ret [("CurrentVolume".toList, .int 7)] := by
   refine ⟨?_, ?_, ?_, ?_, ?_, ?_, ?_, ?_⟩ <;> decide +kernel
+/-- a foreign-namespace response element: strict ⇒ library error, non-strict ⇒ tolerated -/
+private def respDocForeign : Xml :=
+  envelope [.node (Xml.clark "urn:x:service:RC:2".toList "GetVolumeResponse".toList) none
+    [.node "CurrentVolume".toList (some "9".toList) []]]
+private def exX2 : XmlOracle := fun t => if t = ['G'] then some (some respDocForeign) else exX t
+
+example :
+    decode exO exX2 exA 200 (some ['G']) = .exc .invalidResponse
+    ∧ decode exO exX2 { exA with strict := false } 200 (some ['G']) = .ret [("CurrentVolume".toList, .int 9)] := by
+  refine ⟨?_, ?_⟩ <;> decide +kernel
+
+private def excObs (cls : String) (code : Option Int := none) (desc : Option Str := none)
+    (status : Option Int := none) (typed : Bool := true) : OutObs :=
+  .exc { info := { cls := cls, mro := genAnc cls }, code := code, desc := desc, status := status, typed := typed }
+
+/-- **The judge is not trivially true**: for each clause a wrong outcome is REJECTED (and the right
+    one accepted) — evaluated on the judge `C07.ok` itself with the generated exception hierarchy. -/
+example :
+    -- success: the right mapping passes; a missing argument, an unconverted (str) value, an extra key,
+    -- an exception instead of the mapping are rejected
+    ok exO exX exA 200 (some ['R']) (.ret [("Mute".toList, .bool true), ("CurrentVolume".toList, .int 42),
+        ("Day".toList, .date ⟨987, 2, 28⟩), ("At".toList, .time ⟨23, 59, 59⟩ (some (-330)))]) = true
+    ∧ ok exO exX exA 200 (some ['R']) (.ret [("Mute".toList, .bool true), ("CurrentVolume".toList, .int 42),
+        ("Day".toList, .date ⟨987, 2, 28⟩)]) = false
+    ∧ ok exO exX exA 200 (some ['R']) (.ret [("Mute".toList, .bool true), ("CurrentVolume".toList, .str " 42 ".toList),
+        ("Day".toList, .date ⟨987, 2, 28⟩), ("At".toList, .time ⟨23, 59, 59⟩ (some (-330)))]) = false
+    ∧ ok exO exX exA 200 (some ['R']) (.ret [("Mute".toList, .bool true), ("CurrentVolume".toList, .int 42),
+        ("Day".toList, .date ⟨987, 2, 28⟩), ("At".toList, .time ⟨23, 59, 59⟩ (some (-330))), ("Channel".toList, .str [])]) = false
+    ∧ ok exO exX exA 200 (some ['R']) (excObs "UpnpError") = false
+    -- fault at 200: code and description are demanded; a plain UpnpError, a wrong code, a `str` code are rejected
+    ∧ ok exO exX exA 200 (some ['F']) (excObs "UpnpActionError" (some 402) (some "Invalid Args".toList)) = true
+    ∧ ok exO exX exA 200 (some ['F']) (excObs "UpnpActionError" (some 401) (some "Invalid Args".toList)) = false
+    ∧ ok exO exX exA 200 (some ['F']) (excObs "UpnpActionError" none (some "Invalid Args".toList) none false) = false
+    ∧ ok exO exX exA 200 (some ['F']) (excObs "UpnpError") = false
+    ∧ ok exO exX exA 200 (some ['F']) (.ret []) = false
+    -- fault at 500: the status must be carried and the class must be a response error too
+    ∧ ok exO exX exA 500 (some ['F']) (excObs "UpnpActionResponseError" (some 402) (some "Invalid Args".toList) (some 500)) = true
+    ∧ ok exO exX exA 500 (some ['F']) (excObs "UpnpActionResponseError" (some 402) (some "Invalid Args".toList) (some 200)) = false
+    ∧ ok exO exX exA 500 (some ['F']) (excObs "UpnpActionError" (some 402) (some "Invalid Args".toList)) = false
+    -- other non-200: response error WITH the status
+    ∧ ok exO exX exA 404 (some "<html>".toList) (excObs "UpnpResponseError" none none (some 404)) = true
+    ∧ ok exO exX exA 404 (some "<html>".toList) (excObs "UpnpResponseError") = false
+    ∧ ok exO exX exA 500 (some ['R']) (.ret [("CurrentVolume".toList, .int 42)]) = false
+    -- not XML at 200: the XML-parse error, not just any library error
+    ∧ ok exO exX exA 200 (some "<html>".toList) (excObs "UpnpXmlParseError") = true
+    ∧ ok exO exX exA 200 (some "<html>".toList) (excObs "UpnpError") = false
+    -- unknown argument / foreign namespace: strict must raise, non-strict must return the known arguments
+    ∧ ok exO exX exA 200 (some ['E']) (.ret [("CurrentVolume".toList, .int 7)]) = false
+    ∧ ok exO exX { exA with strict := false } 200 (some ['E']) (excObs "UpnpError") = false
+    ∧ ok exO exX2 exA 200 (some ['G']) (.ret [("CurrentVolume".toList, .int 9)]) = false
+    ∧ ok exO exX2 { exA with strict := false } 200 (some ['G']) (excObs "UpnpError") = false := by
+  refine ⟨?_, ?_, ?_, ?_, ?_, ?_, ?_, ?_, ?_, ?_, ?_, ?_, ?_, ?_, ?_, ?_, ?_, ?_, ?_, ?_, ?_, ?_⟩ <;> decide +kernel
 end Example
 
 end Upnp.C07
